@@ -32,7 +32,7 @@ func init() {
 	vc.Register(&vc.Check{
 		ID:    "C34",
 		Level: "exploration",
-		Rule:  "schedules: all interleavings up to the preemption bound (quick 3, thorough 4) of 2-3 threads each running a program of 1-3 lifecycle calls from {Join, Leave, Shutdown} (\"sleep\" = 1.5 s of virtual time, so that calls also start after earlier ones completed; \"sleep:<d>\" places a second call inside each phase of a running Leave: intent wait, wait inside memberlist.Leave, propagation delay; bound one less there) plus an observer thread reading State() every 400 ms of virtual time, on a real Serf node alone, with a peer known to Serf (so that the leave-intent broadcast wait is exercised), and with a silent peer known to memberlist (so that memberlist.Leave times out inside Serf.Leave); virtual time lets Leave's waits elapse; non-trivial = at least one non-default scheduling choice",
+		Rule:  "schedules: all interleavings up to the preemption bound (quick 3, thorough 4) of 2-3 threads each running a program of 1-3 lifecycle calls from {Join, Leave, Shutdown} (\"sleep\" = 1.5 s of virtual time, so that calls also start after earlier ones completed; \"sleep:<d>\" places a second call inside each phase of a running Leave: intent wait, wait inside memberlist.Leave, propagation delay; bound one less there; memberlist.Shutdown itself takes 1 ms of virtual time with Serf's state lock held, and a Shutdown / double Shutdown is also placed 0.5 ms before the instant the Leave's propagation delay ends) plus an observer thread reading State() every 400 ms of virtual time, on a real Serf node alone, with a peer known to Serf (so that the leave-intent broadcast wait is exercised), and with a silent peer known to memberlist (so that memberlist.Leave times out inside Serf.Leave); virtual time lets Leave's waits elapse; non-trivial = at least one non-default scheduling choice",
 		Assumptions: []string{
 			"inert real memberlist; a Join dial is refused by the transport (the join attempt itself is the observable effect)",
 			"'had begun before it was called' is applied in its weakest sound form: a Join called after a Leave/Shutdown returned, or after State() was observed to be past alive, must be refused",
@@ -81,6 +81,12 @@ func c34run(ctx *vc.Ctx) {
 				}
 				c34explore(ctx, []string{"leave", "sleep:" + off + ";" + op}, peer, bound-2)
 			}
+		}
+		// a Shutdown that is in progress (memberlist.Shutdown takes 1 ms of virtual time, with
+		// Serf's state lock held) exactly when the Leave's propagation delay ends
+		end := map[int]string{0: "999500us", 1: "1000500us", 2: "1001500us"}[peer]
+		for _, op := range []string{"shutdown", "shutdown;shutdown"} {
+			c34explore(ctx, []string{"leave", "sleep:" + end + ";" + op}, peer, bound-2)
 		}
 	}
 }
